@@ -248,6 +248,15 @@ def _primitives(ctx):
             2 ** 4096 - 1, 0x80 << 64, 0x7F << 64]
 
     # -- writers: finite-exhaustive over the value classes the code can distinguish, after checking on the code what it looks at
+    _depth = [0]
+
+    def _nested(callee):
+        _depth[0] += 1
+        try:
+            return looks_only_through(callee, {"type"}) is None
+        finally:
+            _depth[0] -= 1
+
     def looks_only_through(fn, what):
         """None if every read of the argument (and of the locals derived from it) is one of the permitted looks, else the offending text"""
         tracked = {a.arg for a in fn.args.args} | {t.id for st in ast.walk(fn) if isinstance(st, ast.Assign) for t in st.targets if isinstance(t, ast.Name)}
@@ -259,6 +268,10 @@ def _primitives(ctx):
             if isinstance(par, ast.Call) and n in par.args:
                 fnm = (ast.unparse(par.func))
                 ok = fnm == "len" or (fnm == "isinstance" and par.args[0] is n and "type" in what) or (fnm.split(".")[-1] == "int_to_bytes" and "number" in what)
+                if not ok and isinstance(par.func, ast.Name) and par.func.id != fn.name and len(par.args) == 1:
+                    # handed on whole to another function of the module that itself looks at it only through permitted looks (MP delegating to NS)
+                    callee = cm.find(par.func.id)
+                    ok = isinstance(callee, ast.FunctionDef) and _depth[0] < 3 and _nested(callee)
                 if fnm == "len":     # a length may only be packed
                     pp = par._parent
                     ok = isinstance(pp, ast.Call) and ast.unparse(pp.func).split(".")[-1] == "pack"
@@ -723,6 +736,18 @@ def _provenance(ctx):
         for c in [x for x in ast.walk(g.node(d).ast) if isinstance(x, ast.Call) and isinstance(x.func, ast.Name) and x.func.id in mvars]:
             n_sites += 1
             a0 = c.args[0] if c.args else None
+            if isinstance(a0, ast.Starred) and isinstance(a0.value, ast.Name):
+                # the argument list is assembled in a local first: its first element is what the parser is handed, provided the list is only appended to
+                lname = a0.value.id
+                ldefs = [st for st in statements(f) if isinstance(st, ast.Assign) and any(isinstance(t, ast.Name) and t.id == lname for t in st.targets)]
+                others = [x for x in ast.walk(f) if isinstance(x, ast.Name) and x.id == lname and isinstance(x.ctx, ast.Load) and x is not a0.value
+                          and not (isinstance(x._parent, ast.Attribute) and x._parent.attr == "append" and isinstance(x._parent._parent, ast.Call))]
+                if len(ldefs) == 1 and isinstance(ldefs[0].value, (ast.List, ast.Tuple)) and ldefs[0].value.elts and not others \
+                        and not any(isinstance(e, ast.Starred) for e in ldefs[0].value.elts):
+                    a0 = ldefs[0].value.elts[0]
+                else:
+                    ctx.note(f"input/binary-formats-unmodified: argument list {lname} of the parser call not recognised; clause left to roundtrip/ (bounded)")
+                    continue
             mods = _modifications(a0, dp) if a0 is not None else ["<no data argument>"]
             ok = isinstance(a0, ast.Name) and a0.id == dp
             only_text = bool(tedges) and edge_path(g, [g.entry], [d], avoid_edges=tedges) is None
